@@ -2571,7 +2571,40 @@ func ruleFoldArity(p *Program, r *Reporter) {
 			key := fmt.Sprintf("%s/%s/bytecode write %d needs %d pending constant(s)", p.FnName(fold), label, nth[label], need)
 			// a dominating test len(list) >= need (or > need-1) on its true edge,
 			// or len(list) < need on its false edge
-			enough := func(at *ssa.BasicBlock, isList func(v ssa.Value) bool) bool {
+			// the variable a captured variable stands for, in whichever literal
+			cellOf := func(v ssa.Value) ssa.Value {
+				for i := 0; i < 3; i++ {
+					fv, ok := v.(*ssa.FreeVar)
+					if !ok {
+						return v
+					}
+					g := fv.Parent()
+					idx := -1
+					for j, q := range g.FreeVars {
+						if q == fv {
+							idx = j
+						}
+					}
+					if idx < 0 || g.Parent() == nil {
+						return v
+					}
+					var bound ssa.Value
+					for _, pb := range g.Parent().Blocks {
+						for _, pi := range pb.Instrs {
+							if mc, ok := pi.(*ssa.MakeClosure); ok && mc.Fn == ssa.Value(g) && idx < len(mc.Bindings) {
+								bound = mc.Bindings[idx]
+							}
+						}
+					}
+					if bound == nil {
+						return v
+					}
+					v = bound
+				}
+				return v
+			}
+			var enough func(at *ssa.BasicBlock, isList func(v ssa.Value) bool) bool
+			enough = func(at *ssa.BasicBlock, isList func(v ssa.Value) bool) bool {
 				for cur := at; cur.Idom() != nil; cur = cur.Idom() {
 					d := cur.Idom()
 					iff, ok := terminator(d).(*ssa.If)
@@ -2580,6 +2613,55 @@ func ruleFoldArity(p *Program, r *Reporter) {
 					}
 					onTrue := (d.Succs[0] == at || d.Succs[0].Dominates(at)) && len(d.Succs[0].Preds) == 1
 					onFalse := (d.Succs[1] == at || d.Succs[1].Dominates(at)) && len(d.Succs[1].Preds) == 1
+					// the test made by a function literal (or function) of the module
+					// that says so in a boolean result: `a, b, ok := operands(); ok`
+					if onTrue {
+						var call *ssa.Call
+						ridx := 0
+						switch c := iff.Cond.(type) {
+						case *ssa.Extract:
+							call, _ = c.Tuple.(*ssa.Call)
+							ridx = c.Index
+						case *ssa.Call:
+							call = c
+						}
+						if call != nil {
+							var targets []*ssa.Function
+							if sc := call.Call.StaticCallee(); sc != nil && fnPkg(sc) != nil && IsLibPath(fnPkg(sc).Pkg.Path()) {
+								targets = []*ssa.Function{sc}
+							} else if fs, ok := localClosureTargets(call.Call.Value, 0); ok {
+								targets = fs
+							}
+							okAll := len(targets) > 0
+							for _, t := range targets {
+								rs := sigResults(t)
+								if ridx >= len(rs) || !isBoolType(rs[ridx]) {
+									okAll = false
+									continue
+								}
+								for _, tb := range t.Blocks {
+									ret, isRet := terminator(tb).(*ssa.Return)
+									if !isRet {
+										continue
+									}
+									k, isK := returnOperand(ret, ridx).(*ssa.Const)
+									if !isK || k.Value == nil || k.Value.Kind() != constant.Bool {
+										okAll = false
+										continue
+									}
+									if constant.BoolVal(k.Value) && !enough(tb, func(v ssa.Value) bool {
+										l2, ok := v.(*ssa.UnOp)
+										return ok && cellOf(l2.X) == cellOf(list)
+									}) {
+										okAll = false
+									}
+								}
+							}
+							if okAll {
+								return true
+							}
+						}
+					}
 					bo, ok := iff.Cond.(*ssa.BinOp)
 					if !ok || !(onTrue || onFalse) {
 						continue
